@@ -173,6 +173,21 @@ pub fn gen_plan(rng: &mut Rng) -> DocPlan {
     let budget = 4 + rng.below(20);
     let mut g = PlanGen { rng, odd_keys, budget, max_depth };
     let mut root = g.entries(0, 0);
+    if g.rng.chance(1, 25) {
+        // a long document (errors on line >= 10 / >= 100, many keys) with some long lines (column >= 100)
+        let n = *g.rng.pick(&[12usize, 40, 110, 300]);
+        for i in 0..n {
+            let k = format!("big{i}");
+            let v = if g.rng.chance(1, 10) {
+                Node::Scalar(Tree::Str((0..*g.rng.pick(&[120usize, 300])).map(|j| if j % 7 == 0 { 'é' } else { 'x' }).collect()))
+            } else if g.rng.chance(1, 10) {
+                Node::Array((0..*g.rng.pick(&[11usize, 40])).map(|j| Node::Scalar(Tree::Int(j as i64))).collect())
+            } else {
+                Node::Scalar(g.scalar())
+            };
+            root.insert(g.rng.below(root.len() + 1), (k, v));
+        }
+    }
     if root.is_empty() && g.rng.chance(9, 10) {
         root.push(("a".into(), Node::Scalar(g.scalar())));
     }
